@@ -134,7 +134,18 @@ var directives = []string{"GET /x", "TYPE @a", "Path", "POST /cats/{id}", "200 @
 
 const tAlphabet = "GETYPath0123456789:{}[]\"@/# \n\t.,-_|eE*"
 
+// shortAlphabet: very short trailing texts (1-3 bytes) exercise the byte right AFTER the first foreign byte
+// (line break, annotation / comment start, bracket) — the place where a delayed end-of-value decision lives.
+const shortAlphabet = "a9:{}\"\n\r/# ,@|]*"
+
 func genT(r *rand.Rand) string {
+	if r.Intn(3) == 0 {
+		b := make([]byte, 1+r.Intn(3))
+		for i := range b {
+			b[i] = shortAlphabet[r.Intn(len(shortAlphabet))]
+		}
+		return string(b)
+	}
 	if r.Intn(3) != 0 {
 		return directives[r.Intn(len(directives))]
 	}
